@@ -268,7 +268,7 @@ def _observe_catalog(args):
 
 
 def _observe_results(args):
-    nodes, vroot, probe, kind = args
+    nodes, vroot, probe, kind, target = args
     v = fstrace.VFS(vroot)
     v.nodes = nodes
     probe = crash.fresh_dir(Path(probe))
@@ -278,10 +278,10 @@ def _observe_results(args):
 
     def read():
         if kind == "hdf":
-            cf = CorrFunc.from_file(probe / "res.hdf5")
+            cf = CorrFunc.from_file(probe / target)
             return tuple((k, x.counts.counts.tobytes(), x.sum_weights.sum_weights1.tobytes()) for k, x in cf.to_dict().items())
         cls = getattr(yaw, kind)
-        cd = cls.from_files(probe / "res")
+        cd = cls.from_files(probe / target)
         return (cd.data.tobytes(), cd.samples.tobytes(), cd.binning.edges.tobytes(), str(cd.binning.closed))
     out = {"read": crash.attempt(read)}
     crash.fresh_dir(probe)
@@ -420,6 +420,12 @@ def run(prop, tier, seed, replay):
                               None if prior_kind == "fresh" else dict(kind="synth", cls=cls, seed=100 + seed, bins=shape[0],
                                                                       samples=shape[1]),
                               dict(kind="synth", cls=cls, seed=200 + seed, bins=nb, samples=ns), "res"))
+        # a path prefix whose file name contains a dot (e.g. a redshift in the name): every file of the product must be
+        # derived from the prefix in ONE way, or the invalidation misses the file it is meant for
+        cls0, nb0, ns0 = res_workloads[0]
+        items.append((f"text-{cls0}-{nb0}x{ns0}-dotted-prefix-older-same-shape", cls0,
+                      dict(kind="synth", cls=cls0, seed=100 + seed, bins=nb0, samples=ns0),
+                      dict(kind="synth", cls=cls0, seed=200 + seed, bins=nb0, samples=ns0), "nz_z0.5"))
         for prior_kind in ("fresh", "older"):
             items.append((f"hdf5-{prior_kind}", "hdf", None if prior_kind == "fresh" else dict(kind="corrfunc", source=srcs[0]),
                           dict(kind="corrfunc", source=srcs[1]), "res.hdf5"))
@@ -445,7 +451,7 @@ def run(prop, tier, seed, replay):
                 continue
             fam = "hdf" if cls == "hdf" else "text"
             states = [(k, v.copy()) for k, v in crash.prefixes(prior, ops)]
-            jobs = [(v.nodes, v.root, str(root / f"probe_{name}_{k}"), cls) for k, v in states]
+            jobs = [(v.nodes, v.root, str(root / f"probe_{name}_{k}"), cls, target) for k, v in states]
             obs = list(pool.map(_observe_results, jobs))
             old, new = obs[0], obs[-1]
             rep_base = {"workload": name, "ops": [crash.show_op(o, out) for o in ops], "seeds": [100 + seed, 200 + seed]}
@@ -464,8 +470,15 @@ def run(prop, tier, seed, replay):
                 first_ok = None
                 if fam == "hdf":
                     first_ok = next((k for k, o in enumerate(obs) if k > 0 and not crash.is_err(o["read"]) and o == new), None)
-                toks = canonicalise(ops, out, prior, trees_bin=0, text_prefix="res", blob_complete_at=first_ok)
-                disk = model_disk(prior, trees_bin_prior=None, text_prefix="res")
+                # the on-disk prefix is read off the completed workload (how the library derives file names from a dotted
+                # prefix is its own business, as long as writer, invalidation and reader agree)
+                tp_ = "res"
+                if fam == "text":
+                    dats = sorted(n for n in states[-1][1].nodes if str(n).endswith(".dat") and "/" not in str(n).strip("/"))
+                    if dats:
+                        tp_ = str(dats[0]).strip("/")[:-4]
+                toks = canonicalise(ops, out, prior, trees_bin=0, text_prefix=tp_, blob_complete_at=first_ok)
+                disk = model_disk(prior, trees_bin_prior=None, text_prefix=tp_)
             except Unmodelled as e:
                 ck.add_tie_break("a file-system operation of the workload is not in the model's alphabet",
                                  {"workload": name, "what": str(e)})
